@@ -342,35 +342,35 @@ namespace ratio
 
     CORE_EXPORT arith_expr core::minus(arith_expr ex) noexcept { return new arith_item(*this, ex->get_type(), -ex->l); }
 
-    CORE_EXPORT bool_expr core::lt(arith_expr left, arith_expr right) noexcept
+    CORE_EXPORT bool_expr core::lt(arith_expr left, arith_expr right)
     {
         if (get_type({left, right}).get_name() == TP_KEYWORD)
             return new bool_item(*this, rdl_th.new_lt(left->l, right->l));
         else
             return new bool_item(*this, lra_th.new_lt(left->l, right->l));
     }
-    CORE_EXPORT bool_expr core::leq(arith_expr left, arith_expr right) noexcept
+    CORE_EXPORT bool_expr core::leq(arith_expr left, arith_expr right)
     {
         if (get_type({left, right}).get_name() == TP_KEYWORD)
             return new bool_item(*this, rdl_th.new_leq(left->l, right->l));
         else
             return new bool_item(*this, lra_th.new_leq(left->l, right->l));
     }
-    CORE_EXPORT bool_expr core::eq(arith_expr left, arith_expr right) noexcept
+    CORE_EXPORT bool_expr core::eq(arith_expr left, arith_expr right)
     {
         if (get_type({left, right}).get_name() == TP_KEYWORD)
             return new bool_item(*this, rdl_th.new_eq(left->l, right->l));
         else
             return new bool_item(*this, lra_th.new_eq(left->l, right->l));
     }
-    CORE_EXPORT bool_expr core::geq(arith_expr left, arith_expr right) noexcept
+    CORE_EXPORT bool_expr core::geq(arith_expr left, arith_expr right)
     {
         if (get_type({left, right}).get_name() == TP_KEYWORD)
             return new bool_item(*this, rdl_th.new_geq(left->l, right->l));
         else
             return new bool_item(*this, lra_th.new_geq(left->l, right->l));
     }
-    CORE_EXPORT bool_expr core::gt(arith_expr left, arith_expr right) noexcept
+    CORE_EXPORT bool_expr core::gt(arith_expr left, arith_expr right)
     {
         if (get_type({left, right}).get_name() == TP_KEYWORD)
             return new bool_item(*this, rdl_th.new_gt(left->l, right->l));
